@@ -24,6 +24,8 @@ def pconc(pkind, v):
         return v // 2 if v % 2 == 0 else v / 2.0
     if pkind in ("pstr", "pobj"):
         return "k%d" % v          # "k-1" < "k0" < "k1" < "k2" < "k3": text order = abstract order
+    if pkind in ("pnumstr", "pnumobj"):
+        return "%03d" % (v + 5)   # zero-padded digits: text that looks like a number but is not its canonical spelling
     return v
 
 
@@ -93,8 +95,8 @@ def build_datasets(fp, pd, base, pool, cls):
             stats_arg = stats if only == "both" else [only]
             pkind = cls.partition("|")[2]
             if part:
-                if pkind in ("pstr", "pobj"):
-                    df["p"] = pd.Series([pconc(pkind, v) for v in ps], dtype=("str" if pkind == "pstr" else object))
+                if pkind in ("pstr", "pobj", "pnumstr", "pnumobj"):
+                    df["p"] = pd.Series([pconc(pkind, v) for v in ps], dtype=("str" if pkind.endswith("str") else object))
                 else:
                     df["p"] = pd.Series([pconc(pkind, v) for v in ps], dtype="int64")
                 fp.write(path, df, file_scheme="hive", partition_on=["p"], row_group_offsets=offs, stats=stats_arg,
